@@ -10,22 +10,27 @@ from gen_values import V, N, S, B, L, R, NULL, f2bits, bits2f
 
 PID = "C15"
 MANIFEST = {
-    "text": "Coq theorems over the transcribed aggregate built-ins (BuiltinsAgg.v: min max avg sum prod median "
+    "text": "36 Coq theorems over the transcribed aggregate built-ins (BuiltinsAgg.v: min max avg sum prod median "
             "percentile any all dot, incl. the six list-or-varargs argument-collection copies and every partial "
-            "operation as an explicit Panic): the two calling conventions agree for all argument vectors; sum/prod "
-            "are Rust's left folds, avg = sum/count; min/max are bounding elements; median/percentile are order "
-            "statistics defined by rank counting (nearest-rank index proved in range and monotone in p via Flocq), "
-            "percentile(0)=min, percentile(100)=max; exact permutation invariance up to +-0; the panics are "
-            "characterised exactly (known findings) and the proposed repair is proved panic-free.  Model tied to "
-            "the code by a BUILTIN correspondence stream (raw and arity-checked calls) and an EVAL stream (list, "
-            "separate and spread arguments through the real parser/evaluator), plus an implementation-level law "
-            "search against exact rational references.",
-    "note": "trusted: Coq kernel + vm_compute; the hand transcription of the ten match arms (validated by "
-            "correspondence on every run); Rust std facts (Sum/Product initial elements, f64::min/max NaN handling, "
-            "stable sort_by that compares every element once the slice has >= 2 elements, saturating as-casts) are "
-            "modelled and pinned by the correspondence; Flocq's four classical/real axioms under the percentile "
-            "index theorems only; 'up to rounding' for sum/prod/avg is proved for sum (Higham-style bound) and "
-            "otherwise decided by the exact-rational search on the implementation",
+            "operation as an explicit Panic): the calling conventions agree for ALL argument vectors (length-1 "
+            "disambiguation stated exactly); sum/prod are Rust's left folds from -0.0/1.0, avg = sum/count; min/max "
+            "are bounding elements; median/percentile are order statistics defined by rank counting; the nearest-rank "
+            "index is in range and monotone in p, percentile(0)=min, percentile(100)=max (Flocq); exact permutation "
+            "invariance up to +-0; Higham-style rounding bounds for sum, prod and avg and permutation invariance up to "
+            "rounding; the panics are characterised exactly (= the two open known findings) and the proposed repair "
+            "is proved panic-free and conservative.  Model tied to the code on every run by a BUILTIN correspondence "
+            "stream (raw and arity-checked calls, bit-exact arguments, lists of length 0..50 incl. NaN/inf/+-0/huge/"
+            "tiny, wrong-typed and missing arguments) and an EVAL stream (list / separate / spread calls through the "
+            "real parser and evaluator), plus an implementation-level law search against exact rational references.",
+    "note": "trusted: Coq kernel + vm_compute; the hand transcription of the ten match arms (validated by the "
+            "correspondence on every run); Rust std facts (Sum/Product initial elements, f64::min/max NaN and +-0 "
+            "handling, stable sort_by whose comparator runs on every element once the slice has >= 2 elements, "
+            "saturating as-casts, f64::round) are modelled and pinned by the correspondence, not verified; Flocq 4.1 "
+            "and the four allow-listed classical/real axioms under the percentile-index, panic-characterisation and "
+            "rounding theorems only (conventions, folds, min/max, sort, order statistics, median, exact permutation "
+            "invariance are closed under the global context); hypotheses: NaN-free non-empty lists for the order "
+            "theorems (the property's quantifier), list length <= 2^53, p a valid double, no overflow of partial "
+            "sums/products and no underflow of partial products for the rounding bounds",
     "design_ref": "DESIGN.md section 6 C15; notes/C15.md",
 }
 
@@ -297,6 +302,25 @@ def corner_cases():
                    [L(N(-0.0)), L(one)], [L(N(INF)), L(N(0.0))], [L(one), L(two), L(one)]]:
             out.append(Case("dot", mode, sh, "junk"))
     return out
+
+
+RUNTIME_ARITY = {}
+
+
+def load_arity(h):
+    """arity table as the built crate reports it (harness dump-builtins), not a constant"""
+    for row in c.harness_oneshot(h, "dump-builtins").strip().split("\n"):
+        f = row.split("\t")
+        RUNTIME_ARITY[f[0]] = (f[1], int(f[2]), int(f[3]))
+
+
+def arity_holds(name, n):
+    kind, a, b = RUNTIME_ARITY[name]
+    if kind == "exact":
+        return n == a
+    if kind == "atleast":
+        return n >= a
+    return a <= n <= b
 
 
 def norm_impl(o):
@@ -683,6 +707,8 @@ def known_class(name, model_text):
     if not model_text.startswith("PANIC|"):
         return None
     fixed = model_text.split("|", 1)[1]
+    if fixed == "PANIC":
+        return None          # an abort the repair does not remove (e.g. a missing argument): not a known class
     if name == "median":
         return "C15-F1-nan-sort"
     if name == "percentile":
@@ -703,6 +729,7 @@ def main(argv):
     try:
         h = c.build_harness()
         c.regen_builtins(h)
+        load_arity(h)
     except c.BrokenTie as e:
         res.tie_broken(e.what, e.detail)
         return res.finish()
@@ -745,37 +772,31 @@ def main(argv):
             continue
         if r.startswith("OK:"):
             nontrivial.add(cs.key())
-        kid = known_class(cs.name, m) if cs.arity_ok() else None
         if m.startswith("PANIC|"):
             cur, fixed = "PANIC", m.split("|", 1)[1]
         else:
             cur, fixed = m, None
-        if kid is not None:
-            # an input of a known-finding class: the implementation must still panic, or behave
-            # exactly like the proposed repair
-            if r == "PANIC":
-                if kid in known:
-                    known_hits[kid] += 1
-                    validated += 1
-                else:
-                    panic_violation("the implementation panics (C01 class) on an arity-respecting aggregate call",
-                                  {"kind": "panic", "line": cs.line(), "call": "%s(%s)" % (cs.name, ", ".join(a.src() for a in cs.args)),
-                                   "observed": r, "finding_class": kid})
-            elif r == fixed:
+        arity_ok = arity_holds(cs.name, len(cs.args))
+        kid = known_class(cs.name, m) if arity_ok else None
+        call = "%s(%s)" % (cs.name, ", ".join(a.src() for a in cs.args))
+        if r == "PANIC" and arity_ok:
+            # an abort on a call the language can make: only the open known-finding classes are tolerated
+            if kid is not None and kid in known:
+                known_hits[kid] += 1
                 validated += 1
             else:
-                mism.append((cs, m, r))
+                panic_violation("the implementation panics (C01 class) on an arity-respecting aggregate call",
+                                {"kind": "panic", "line": cs.line(), "call": call, "observed": r,
+                                 "finding_class": kid})
+                if r != cur:
+                    mism.append((cs, m, r))
+        elif r == cur or (fixed is not None and fixed != "PANIC" and r == fixed):
+            # second disjunct: an input on which the code as it is aborts in the sort / on the empty list;
+            # the repaired code (fixes/C15-*.diff) no longer aborts there and must behave exactly like
+            # the repaired model
+            validated += 1
         else:
-            if r == cur or (fixed is not None and r == fixed):
-                # (second disjunct: a raw call that violates the arity and reaches the sort / the empty
-                # list -- the repaired code no longer aborts there either)
-                validated += 1
-            else:
-                mism.append((cs, m, r))
-                if r == "PANIC" and cs.arity_ok():
-                    panic_violation("the implementation panics (C01 class) on an arity-respecting aggregate call",
-                                  {"kind": "panic", "line": cs.line(),
-                                   "call": "%s(%s)" % (cs.name, ", ".join(a.src() for a in cs.args)), "observed": r})
+            mism.append((cs, m, r))
     targets = []
     if mism:
         cs, m, r = mism[0]
@@ -805,18 +826,21 @@ def main(argv):
         etags[tag] = etags.get(tag, 0) + 1
         if m is None:
             continue
-        if m.startswith("PANIC|"):
-            kid = known_class(a, m)
-            if r == "PANIC" and kid in known:
+        if r == "PANIC":
+            kid = known_class(a, m) if m.startswith("PANIC|") else None
+            if kid is not None and kid in known:
                 known_hits[kid] += 1
                 validated += 1
-            elif r == m.split("|", 1)[1]:
+            else:
+                panic_violation("the implementation panics (C01 class) on an aggregate call",
+                                {"kind": "eval", "program": prog, "observed": r})
+                if not m.startswith("PANIC|"):
+                    emism.append((prog, m, r))
+        elif m.startswith("PANIC|"):
+            if r == m.split("|", 1)[1]:
                 validated += 1
             else:
                 emism.append((prog, m, r))
-                if r == "PANIC":
-                    panic_violation("the implementation panics (C01 class) on an aggregate call",
-                                  {"kind": "eval", "program": prog, "observed": r})
         elif r == m:
             validated += 1
             if r.startswith("OK:"):
